@@ -1334,17 +1334,20 @@ impl StateMachine for FileStateMachine {
                     }
                 }
             }
+            // The applied index moves while the write lock is still held: scan_prefix reads
+            // entries and revision under the read lock, so it never pairs the new data with
+            // the old revision.
+            if let Some(log_id) = highest_log_id {
+                debug!("State machine - updated last_applied: {:?}", log_id);
+                self.update_last_applied(log_id);
+            }
         } // Lock released immediately - no awaits inside!
         #[cfg(d_engine_verif)]
         d_engine_core::verif::point("fsm_apply:after_mem", None, 0, 0);
 
-        // PHASE 4: Update last applied index and conditionally checkpoint.
+        // PHASE 4: conditionally checkpoint.
         // WAL (written in PHASE 2) is the primary crash-safety path.
         // Checkpoint snapshots full data periodically to bound WAL replay time on recovery.
-        if let Some(log_id) = highest_log_id {
-            debug!("State machine - updated last_applied: {:?}", log_id);
-            self.update_last_applied(log_id);
-        }
 
         self.wal_entries_since_checkpoint.fetch_add(chunk_len as u64, Ordering::Relaxed);
 
